@@ -25,14 +25,26 @@ Local Open Scope N_scope.
 (* ------------------------------------------------------------------ *)
 (* The abstract font                                                    *)
 
+(* The outline is an opaque id.  One id is reserved: `blank_outline` is the
+   glyph without any outline data - a zero-length glyf entry (a nil
+   *glyf.Glyph in Go, e.g. "space") or an empty charstring.  Any number of
+   glyphs of a font may be blank; they differ in width / name / CID only.
+   The subsetter has no special case for them (Components() and
+   FixComponents() of a nil glyph are nil): a blank glyph that is a component
+   of a retained composite is appended like any other component, and the
+   model below does the same - `add_comps` does not look at the outline. *)
+Definition blank_outline : N := 0.
+
 Record glyph : Type := mkGlyph {
-  g_outline : N;       (* opaque id of the outline data *)
+  g_outline : N;       (* opaque id of the outline data; blank_outline = no outline *)
   g_width : Z;
   g_name : N;          (* opaque id of the glyph name *)
   g_cid : N;
   g_fd : N;            (* FDSelect(gid) *)
   g_comps : list N     (* component glyph ids; [] for a simple glyph *)
 }.
+
+Definition is_blank (x : glyph) : bool := (g_outline x =? blank_outline) && match g_comps x with [] => true | _ => false end.
 
 Inductive kind : Type := KGlyf | KCff | KCid.
 
@@ -42,7 +54,11 @@ Definition ligset : Type := (N * list ligature)%type.    (* first glyph, its lig
 Inductive gsubst : Type :=
 | Single1 (delta : N) (cov : list N)      (* gtab.Gsub1_1: Cov (a set) and Delta *)
 | Single2 (m : list (N * N))              (* gtab.Gsub1_2: coverage order, substitute *)
-| Lig (sets : list ligset).               (* gtab.Gsub4_1: coverage order *)
+| Lig (sets : list ligset)                (* gtab.Gsub4_1: coverage order *)
+| Multi (alt : bool) (m : list (N * list N)).
+    (* gtab.Gsub2_1 (alt = false: Repl) and gtab.Gsub3_1 (alt = true:
+       Alternates), coverage order; SubsetGsub collects their rules (step 1)
+       and panics "not implemented" when it rebuilds the table (step 3) *)
 
 Definition kernsub : Type := list (N * N * Z).            (* gtab.Gpos2_1 *)
 
@@ -166,6 +182,7 @@ Definition rules_of_sub (s : gsubst) : list rule :=
   | Single2 m => map (fun p => mkRule 0 [fst p] [snd p]) m
   | Lig sets =>
       flat_map (fun s => map (fun l => mkRule 0 (fst s :: fst l) [snd l]) (snd s)) sets
+  | Multi _ m => map (fun p => mkRule 0 [fst p] (snd p)) m
   end.
 
 (* the rules in the order the Go code meets them: lookups and subtables in
@@ -316,6 +333,7 @@ Fixpoint build_subs (ss : list gsubst) (st : sst) : outcome (list gsubst * sst) 
       let '(ns, st1) := build_sets (retained st fst sets) st in
       p <- build_subs r st1 ;;
       Ok (match ns with [] => fst p | _ => Lig ns :: fst p end, snd p)
+  | Multi _ _ :: _ => Panic                      (* panic("not implemented") *)
   end.
 
 (* every lookup keeps its index, also when no subtable is left *)
